@@ -648,7 +648,7 @@ def c06_5(ctx: Ctx) -> RuleResult:
                 stores = [n for n in nodes_in(pi, ast.Assign) if any(isinstance(t, ast.Attribute) and t.attr == name and isinstance(t.value, ast.Name) and t.value.id == selfn for t in n.targets)]
                 why = f"`{name}` is stored as received: the result shares (writable) memory with the evaluator / the caller"
                 for s in stores:
-                    vt = X.at(pi, s.value)
+                    vt = X.value_at(pi, s.value)
                     if not is_dict:
                         ok = any(a[0] == "call" and ic in ctx.cg.resolve_fn(a[1], pi) and a[2] and a[2][0] == ("attr", ("param", pi.qualname, selfn), name) for a in alts(vt)) or (
                             vt[0] == "call" and ic in ctx.cg.resolve_fn(vt[1], pi))
